@@ -563,13 +563,15 @@ def run(ctx):
         if ctx.only and "bfs" not in ctx.only:
             return ctx.finish(rule="factory sweep only")
     kinds = KINDS_QUICK if quick else KINDS_FULL
-    depth = 3 if quick else 4
+    # depth 3 in both tiers: the thorough tier widens the alphabet (8 operator kinds instead of 5, create on both slots, new grid), which
+    # already multiplies the transitions by ~6; depth 4 on that alphabet was measured not to finish within 3 hours
+    depth = 3
     events = alphabet(kinds, quick)
     # the oracle: what a fresh interpreter computes.  This process is one (nothing has been assembled yet); a second fresh
     # interpreter computes the same table in the opposite order concurrently; the two must agree.
     import multiprocessing as mp
 
-    jobs = 1 if quick else max(1, min(ctx.jobs, 4))
+    jobs = 1  # spawned workers that JIT-compile on their own were measured to be slower than one process
     mpc = mp.get_context("spawn")
     q = mpc.Queue()
     proc = mpc.Process(target=_fresh_proc, args=(q, ctx.seed, kinds), daemon=True)
